@@ -101,7 +101,8 @@ Alphabet(K) ==   \* K = keys declared so far
     [] Fam = "flowio" ->
          {EdgeOp(p[1], p[2], "") : p \in {q \in (K \cup {START}) \X (K \cup {END}) : q[1] # q[2] /\ q[1] # "n2" /\ q # <<START, "n1">> /\ q # <<START, END>>}}
     [] Fam = "wfin" ->
-         {EdgeOp(START, "n1", x) : x \in {"fm", "fm2", "dfm", "dfm2", "c"}} \cup {EdgeOp("n1", END, x) : x \in {"fm", "fm2", "dfm", "c"}}
+         {EdgeOp(START, "n1", x) : x \in {"fm", "fm2", "dfm", "dfm2", "c"}} \cup {EdgeOp("n1", END, x) : x \in {"fm", "fm2", "dfm", "dfm2", "c"}}
+         \cup {EdgeOp(START, END, x) : x \in {"fm", "dfm", "c"}}
     [] Fam = "flow2" ->
          {EdgeOp(p[1], p[2], "") : p \in (K \cup {START}) \X (K \cup {END})}
          \cup {BranchOp(p[1], p[2], <<p[3], p[4]>>, p[5]) : p \in {q \in (K \cup {START}) \X Ty \X K \X (K \cup {END}) \X (K \cup {END}) : q[3] # q[4] /\ q[5] = q[3]}}
@@ -368,7 +369,10 @@ AfterErr == IF berr = 0 THEN 0 ELSE Len(hist) - berr
 Panicked == \E j \in 1..Len(outs) : outs[j] = "P"
 Prologue == /\ todo # <<>> /\ Call(Head(todo)) /\ todo' = Tail(todo) /\ UNCHANGED <<hdr, plen>>
 \* workflow front end: nothing more is tried after a Compile that failed (the wrapper's bookkeeping is then half done)
-WfStopped == hdr.fe = "wf" /\ \E i \in 1..Len(outs) : hist[i].op = "compile" /\ outs[i] # "ok"
+\* workflow front end: after a Compile that failed only one more Compile is tried (does the refusal last?); the wrapper's bookkeeping
+\* is half done then, and what a third call returns depends on the iteration order of the node map
+WfFailIdx == IF hdr.fe = "wf" THEN FirstIn(1..Len(outs), LAMBDA i : hist[i].op = "compile" /\ outs[i] # "ok") ELSE 0
+WfStopped == WfFailIdx # 0 /\ Len(hist) > WfFailIdx
 Free ==
   /\ todo = <<>> /\ pc = "idle" /\ ~Panicked /\ ~WfStopped /\ UNCHANGED <<hdr, todo, plen>>
   /\ LET K == Declared  fc == FirstCompileIdx IN
@@ -378,7 +382,9 @@ Free ==
                                   /\ (op.op = "branch" => NBr < MaxBr)
                                   /\ Call(op)
         \/ \E op \in CompileAlphabet : Call(op)
-     ELSE \E op \in PostAlphabet(K) : Len(hist) - fc < MaxPost /\ Call(op)
+     ELSE \E op \in PostAlphabet(K) : /\ Len(hist) - fc < MaxPost
+                                        /\ (WfFailIdx # 0 => (op.op = "compile" /\ op.m = hist[WfFailIdx].m /\ op.x = hist[WfFailIdx].x))
+                                        /\ Call(op)
 Next == Prologue \/ Free \/ UpdStep \/ UpdDone \/ BrLoop
 Spec == Init /\ [][Next]_vars
 
